@@ -309,6 +309,28 @@ fn r_result(r: &ResultWithDeserializedMetadata) -> Result<String, String> {
                         }
                     }
                 }
+                // typed tuple targets (DeserializeRow for tuples): the first one whose type_check accepts the columns
+                fn first_err<'a, T: scylla_cql_core::deserialize::row::DeserializeRow<'a, 'a>>(
+                    rows: &'a scylla_cql::frame::response::result::DeserializedMetadataAndRawRows,
+                ) -> Option<String> {
+                    let it = rows.rows_iter::<T>().ok()?;
+                    for (i, row) in it.enumerate() {
+                        if row.is_err() {
+                            return Some(format!("err@{}", i));
+                        }
+                    }
+                    Some("ok".to_string())
+                }
+                let typed = [
+                    (1, first_err::<(Option<i32>,)>(rows)),
+                    (2, first_err::<(Option<i64>, Option<String>)>(rows)),
+                    (3, first_err::<(Option<Vec<u8>>,)>(rows)),
+                    (4, first_err::<(Option<bool>,)>(rows)),
+                    (5, first_err::<(Option<Vec<Option<i32>>>,)>(rows)),
+                ];
+                if let Some((k, Some(r))) = typed.iter().find(|(_, r)| r.is_some()) {
+                    tv = format!("{},t{}:{}", tv, k, r);
+                }
                 TV.with(|t| t.set(tv));
             }
             format!(
@@ -423,11 +445,77 @@ fn unhex(s: &str) -> Vec<u8> {
 /// the pipeline of the property: read_response_frame -> parse_response_body_extensions ->
 /// Response(V2)::deserialize -> deserialize_metadata -> rows_iter
 fn decode(cfg: &Cfg, frame: &[u8]) -> String {
+    let mut reader: &[u8] = frame;
+    decode_reader(cfg, &mut reader)
+}
+
+/// A reader that delivers the stream in chunks of the scheduled sizes (at least 1 byte, at most what the
+/// caller's buffer takes); end of stream only at the end.
+struct Chunked<'a> {
+    data: &'a [u8],
+    pos: usize,
+    sizes: Vec<usize>,
+    i: usize,
+}
+impl tokio::io::AsyncRead for Chunked<'_> {
+    fn poll_read(
+        mut self: std::pin::Pin<&mut Self>,
+        _cx: &mut std::task::Context<'_>,
+        buf: &mut tokio::io::ReadBuf<'_>,
+    ) -> std::task::Poll<std::io::Result<()>> {
+        let left = self.data.len() - self.pos;
+        if left > 0 && buf.remaining() > 0 {
+            let want = self.sizes[self.i % self.sizes.len()].max(1);
+            let k = want.min(left).min(buf.remaining());
+            let (a, b) = (self.pos, self.pos + k);
+            buf.put_slice(&self.data[a..b]);
+            self.pos = b;
+            self.i += 1;
+        }
+        std::task::Poll::Ready(Ok(()))
+    }
+}
+/// kind Q: two frames on one stream delivered in adversarial chunks (schedule derived from the bytes, so a
+/// replay repeats it): the first frame through the whole pipeline, then what the reader hands out next
+fn decode_chunked(cfg: &Cfg, stream: &[u8]) -> String {
+    let mut h: u64 = 0xcbf29ce484222325;
+    for b in stream {
+        h = (h ^ *b as u64).wrapping_mul(0x100000001b3);
+    }
+    let mut r = Rng::new(h);
+    let sizes: Vec<usize> = match r.below(6) {
+        0 => vec![1],
+        1 => vec![8, 1, 1, 3],                       // header split after 8 bytes
+        2 => vec![9, 1, 1_000_000],                  // header alone, one body byte, the rest incl. the next frame
+        3 => vec![1_000_000],                        // everything at once, spanning both frames
+        4 => (0..16).map(|_| r.range(1, 5) as usize).collect(),
+        _ => (0..16).map(|_| r.range(1, 64) as usize).collect(),
+    };
+    let mut reader = Chunked { data: stream, pos: 0, sizes, i: 0 };
+    let first = decode_reader(cfg, &mut reader);
+    let second = match futures::executor::block_on(read_response_frame(&mut reader)) {
+        Ok((p, op, body)) => format!("ok:{}:{}:{}:{}", p.flags, p.stream, op as u8, hx(&body)),
+        Err(e) => format!("err:{}", header_class(&e)),
+    };
+    format!("{} q2={}", first, second)
+}
+fn header_class(e: &FrameHeaderParseError) -> &'static str {
+    match e {
+        FrameHeaderParseError::HeaderIoError(_) => "HeaderIoError",
+        FrameHeaderParseError::FrameFromClient => "FrameFromClient",
+        FrameHeaderParseError::VersionNotSupported(_) => "VersionNotSupported",
+        FrameHeaderParseError::UnknownResponseOpcode(_) => "UnknownResponseOpcode",
+        FrameHeaderParseError::BodyChunkIoError(_, _) => "BodyChunkIoError",
+        FrameHeaderParseError::ConnectionClosed(_, _) => "ConnectionClosed",
+        _ => "OtherHeaderError",
+    }
+}
+
+fn decode_reader<R: tokio::io::AsyncRead + Unpin>(cfg: &Cfg, reader: &mut R) -> String {
     let mut features = ProtocolFeatures::default();
     features.rate_limit_error = cfg.rate_limit;
     features.scylla_metadata_id_supported = cfg.metadata_id;
-    let mut reader: &[u8] = frame;
-    let (params, opcode, body): (_, _, Bytes) = match futures::executor::block_on(read_response_frame(&mut reader)) {
+    let (params, opcode, body): (_, _, Bytes) = match futures::executor::block_on(read_response_frame(reader)) {
         Ok(x) => x,
         Err(e) => {
             let c = match e {
@@ -650,7 +738,10 @@ fn run_case(case: &str) -> String {
     MAXREQ.with(|m| m.set(0));
     TOTAL.with(|t| t.set(0));
     let pair = f[0] == "P";
-    let status = match catch(std::panic::AssertUnwindSafe(|| if pair { decode_pair(&cfg, &frame) } else { decode(&cfg, &frame) })) {
+    let chunked = f[0] == "Q";
+    let status = match catch(std::panic::AssertUnwindSafe(|| {
+        if pair { decode_pair(&cfg, &frame) } else if chunked { decode_chunked(&cfg, &frame) } else { decode(&cfg, &frame) }
+    })) {
         Ok(s) => s,
         Err(m) => {
             format!("panic {}", m.split_whitespace().collect::<Vec<_>>().join("_").chars().take(80).collect::<String>())
@@ -1265,6 +1356,10 @@ fn gen_cases(a: &Args) -> Vec<String> {
         .map(|f| (f[0].clone(), f[1].clone(), unhex(&f[2])))
         .collect();
     assert!(!base.is_empty(), "driver gen produced nothing");
+    // field-aware mutations made by the extracted encoder (one count / length / flag field at a boundary value)
+    for f in gen_lines.iter().filter(|f| f.len() == 4 && f[0] == "F") {
+        cases.push(format!("F {} {}n {}", f[1], f[2], f[3]));
+    }
     // pairs PREPARED + Rows-without-metadata (cached result metadata), their cuts and mutations
     for f in gen_lines.iter().filter(|f| f.len() == 4 && f[0] == "P") {
         let (ft, v, st) = (&f[1], &f[2], unhex(&f[3]));
@@ -1351,6 +1446,21 @@ fn gen_cases(a: &Args) -> Vec<String> {
                 }
             }
         }
+    }
+    // two frames on one stream through the chunked reader (kind Q): whole, cut, and with a damaged first frame
+    for w in base.windows(2) {
+        let ((ft, v, f1), (_, _, f2)) = (&w[0], &w[1]);
+        if f1.len() + f2.len() > 4000 || f1.len() < 9 || (f1[1] & 1) == 1 {
+            continue;
+        }
+        let mut st = f1.clone();
+        st.extend_from_slice(f2);
+        cases.push(format!("Q {} {}n {}", ft, v, hex_bytes(&st)));
+        let k = r.range(1, (st.len() - 1) as u64) as usize;
+        cases.push(format!("Q {} {}n {}", ft, v, hex_bytes(&st[..k])));
+        let mut m = mutate(&mut r, f1);
+        m.extend_from_slice(f2);
+        cases.push(format!("Q {} {}n {}", ft, v, hex_bytes(&m)));
     }
     // (d) random bytes, plain and behind a valid header
     let nrand = (a.n / 10).max(100);
